@@ -351,15 +351,18 @@ struct ArraysWorld : World {
 				if (kind != K_RAW && (op.c % 13) == 5 && usedu > 0 && !misaligned && H[h].buf) {
 					// the source is one of the array's own elements (the pointer handed in lies inside the buffer): the target slot becomes a copy of
 					// it, wherever the elements are after the call - at the end of the data this makes the buffer grow
-					size_t q = (size_t) (op.c / 13) % usedu, pu = (op.c & 1) ? usedu : posu; if (pu == q) pu = usedu;
-					uint32_t want = m[q];
+					size_t q = (size_t) (op.c / 13) % usedu, pu = (op.c & 1) ? usedu : posu;
+					// (one element, or a run of them that may overlap the slots it is assigned to - the element onto itself included)
+					size_t cnt = (op.c & 2) ? 1 : 1 + (size_t) (op.c / 29) % (usedu - q); if (cnt > 6) cnt = 6;
+					std::vector<uint32_t> want(m.begin() + q, m.begin() + q + cnt);
 					const uint8_t *own = (const uint8_t *) (H[h].buf + 1) + q * ES;
-					void *r; { Sut s(failn); r = mpt_array_set(AR(H[h]), traits, ES, own, (long) pu); afired = g.fired; }
-					log.ev("SET %d off=%zu from its own element %zu of %zu -> %s", h, pu, q, usedu, r ? "ok" : "null");
-					st.hit("probe:set_from_own_element");
+					void *r; { Sut s(failn); r = mpt_array_set(AR(H[h]), traits, cnt * ES, own, (long) pu); afired = g.fired; }
+					log.ev("SET %d off=%zu from its own elements [%zu,+%zu) of %zu -> %s", h, pu, q, cnt, usedu, r ? "ok" : "null");
+					st.hit(pu < q + cnt && q < pu + cnt ? "probe:set_from_overlapping_own_elements" : "probe:set_from_own_element");
 					if (!r) { failed = true; typed_fail = kind == K_TRACKED; break; }
-					if (pu + 1 > m.size()) m.resize(pu + 1, 0);
-					m[pu] = want; M[h].has = true;
+					if (pu + cnt > m.size()) m.resize(pu + cnt, 0);
+					for (size_t i = 0; i < cnt; ++i) m[pu + i] = want[i];
+					M[h].has = true;
 					break;
 				}
 				bool nul = (op.c % 4) == 0;
